@@ -57,6 +57,12 @@ pub enum Which {
     C05,
 }
 
+/// The sequence number of an offset: spans never wrap the 31-bit space (the statement excludes that), so bases next
+/// to the top of the space saturate at 0x7fffffff - the largest number itself is sent, acknowledged and NAKed often.
+fn sq(case: &Case, off: u32) -> u32 {
+    case.base.saturating_add(off).min(0x7fff_ffff)
+}
+
 fn off() -> impl Strategy<Value = u32> {
     prop_oneof![
         10 => 0u32..40,
@@ -77,6 +83,26 @@ fn ack_off() -> impl Strategy<Value = u32> {
         1 => (0u32..40).prop_map(|x| x + 16_384),
         1 => 0u32..70_000,
     ]
+}
+
+/// Short histories for the first-of-process part: a unique copy on one link, the same number duplicated onto another
+/// (probe copy), both flushed, then the number NAKed twice - with a little generated noise before and between.
+pub fn first_links_strategy() -> impl Strategy<Value = Case> {
+    (2u8..=3, any::<u16>(), any::<u16>(), 0u32..30, any::<u16>(), any::<u16>(), any::<bool>(), vec(strategy(Which::C05, 6), 0..1), prop_oneof![Just(0u32), Just(1), Just(4_999), Just(5_000)])
+        .prop_map(|(n_links, a, b, off, arr1, arr2, direct, noise, gap)| {
+            let mut ops = Vec::new();
+            if let Some(nz) = noise.first() {
+                ops.extend(nz.ops.iter().take(3).cloned());
+            }
+            ops.push(Op::Send { link: a, off });
+            ops.push(Op::Probe { link: b, off });
+            ops.push(Op::Flush);
+            ops.push(Op::Advance(20));
+            ops.push(Op::Nak { arrival: arr1, items: vec![(off, 0)], direct });
+            ops.push(Op::Advance(gap));
+            ops.push(Op::Nak { arrival: arr2, items: vec![(off, 0)], direct });
+            Case { n_links, base: 1000, classic: false, pre_naks: vec![0; 6], ops }
+        })
 }
 
 fn time_step(which: Which) -> BoxedStrategy<u32> {
@@ -118,7 +144,7 @@ pub fn strategy(which: Which, max_ops: usize) -> impl Strategy<Value = Case> {
     let links = if which == Which::C05 { prop_oneof![4 => 1u8..=4, 2 => 5u8..=6].boxed() } else { (1u8..=4).boxed() };
     (
         links,
-        prop_oneof![Just(0u32), Just(1u32 << 30), 0u32..(0x7fff_ffff - 80_000), Just(0x7fff_ffff - 80_000)],
+        prop_oneof![3 => Just(0u32), 3 => Just(1u32 << 30), 3 => 0u32..(0x7fff_ffff - 80_000), 3 => Just(0x7fff_ffff - 80_000), 2 => (0u32..70).prop_map(|k| 0x7fff_ffff - k)],
         any::<bool>(),
         vec(prop_oneof![5 => Just(0u8), 3 => 183u8..196, 1 => 1u8..183], 6),
         vec(op, 1..max_ops),
@@ -266,7 +292,7 @@ pub fn check(case: &Case, obs: &mut Obs, which: Which) -> CheckResult {
                     continue;
                 }
                 let li = idx(*link, nl);
-                let seq = case.base + off;
+                let seq = sq(case, *off);
                 let cid = sh.st.conns[li].conn_id;
                 let pkt = data_pkt(seq);
                 let is_probe = matches!(op, Op::Probe { .. });
@@ -374,7 +400,7 @@ pub fn check(case: &Case, obs: &mut Obs, which: Which) -> CheckResult {
                 if nl == 0 {
                     continue;
                 }
-                let a = case.base + off;
+                let a = sq(case, *off);
                 let ai = idx(*arrival, nl);
                 match high_ack {
                     Some(h) if a == h => obs.class("duplicate-ack"),
@@ -394,7 +420,7 @@ pub fn check(case: &Case, obs: &mut Obs, which: Which) -> CheckResult {
                 }
                 let ai = idx(*arrival, nl);
                 let acid = sh.st.conns[ai].conn_id;
-                let list: Vec<u32> = offs.iter().map(|o| case.base + o).collect();
+                let list: Vec<u32> = offs.iter().map(|o| sq(case, *o)).collect();
                 let before: BTreeMap<u64, BTreeSet<u32>> = model.iter().map(|(k, m)| (*k, m.held.clone())).collect();
                 let win_before: Vec<(u64, i32, bool, bool)> = sh.st.conns.iter().map(|c| (c.conn_id, c.window, c.connected, c.last_received.is_some())).collect();
                 sh.uplink_pkt(ai, &srtla_ack_pkt(&list));
@@ -432,10 +458,10 @@ pub fn check(case: &Case, obs: &mut Obs, which: Which) -> CheckResult {
                 }
                 let ai = idx(*arrival, nl);
                 let now = sh.st.now;
-                let its: Vec<(u32, u8)> = items.iter().map(|(o, e)| (case.base + o, *e)).collect();
+                let its: Vec<(u32, u8)> = items.iter().map(|(o, e)| (sq(case, *o), (*e as u32).min(0x7fff_ffff - sq(case, *o)) as u8)).collect();
                 let mut list: Vec<u32> = Vec::new();
                 for (s, e) in &its {
-                    for x in *s..=(*s + *e as u32) {
+                    for x in *s..=(*s + *e as u32).min(0x7fff_ffff) {
                         list.push(x);
                     }
                 }
